@@ -74,7 +74,10 @@ type JFile struct {
 	// Nested: raw member blocks (nested interface / static class) rendered after the methods; outside
 	// the "conventional" subset, used by the differential checks only
 	Nested []string `json:"nested,omitempty"`
-	Text   string   `json:"text"`
+	// HeaderBytes > 0: a licence comment of at least that many bytes precedes the package line (sizes
+	// around the usual buffer sizes: the first mention of anything interesting lies beyond them)
+	HeaderBytes int    `json:"header_bytes,omitempty"`
+	Text        string `json:"text"`
 	// ground truth for the Spring role
 	Apis []ApiTruth `json:"apis,omitempty"`
 }
@@ -92,6 +95,15 @@ type ApiTruth struct {
 func (f *JFile) Render() {
 	var b []string
 	add := func(s string) { b = append(b, s) }
+	if f.HeaderBytes > 0 {
+		add("/*")
+		for n, k := 3, 0; n < f.HeaderBytes; k++ {
+			l := fmt.Sprintf(" * Licensed to the project under one or more contributor agreements (clause %d).", k)
+			add(l)
+			n += len(l) + 1
+		}
+		add(" */")
+	}
 	add("package " + f.Pkg + ";")
 	add("")
 	for i := range f.Imports {
@@ -219,11 +231,12 @@ type Options struct {
 	Services           bool // *Service classes with long parameter lists sharing parameter names
 	Nested             bool // nested interface / static class members (beyond the conventional subset)
 	Enums              bool // an enum file with field, constructor and method (beyond the conventional subset)
+	Legacy             bool // one class has a method with hundreds of local variables (generated / legacy code)
 	ServiceMethod      bool // @ServiceMethod on interface methods (coca reports their implementations as APIs); differential checks only
 }
 
 var (
-	pkgPool      = []string{"a", "b", "x.y", "z", "ads.target.web", "tools.build"}
+	pkgPool      = []string{"a", "b", "x.y", "z", "ads.target.web", "tools.build", "javabook.ch1", "javax.ext"}
 	collidePkgs  = []string{"p", "pq", "qr", "r", "p.q", "pq.r"}
 	classPool    = []string{"Alpha", "Beta", "Gamma", "Delta", "Helper", "Repo", "Shape", "Other", "Svc", "Item", "Store", "Util", "OrderService", "UserService"}
 	fieldNames   = []string{"repo", "svc", "helper", "item", "store", "shape"}
@@ -251,6 +264,8 @@ type gctx struct {
 	// forceField[i] = simple type name class i must hold in an un-imported field (same-package reference
 	// to a simple name that also exists in another package: resolution must not depend on list order)
 	forceField map[int]string
+	// legacyFile: index of the class that gets the legacy method (Options.Legacy)
+	legacyFile int
 	// forceImport[i] = qualified type class/interface i must import and use (field type, or the
 	// extended type of an interface): two files of one package using the same simple name with
 	// different imports - a resolution must never be carried from one file to the other
@@ -301,6 +316,9 @@ func GenProject(t *tape.Tape, o Options) *Project {
 	}
 	g.forceField = map[int]string{}
 	g.forceSvc = map[int]string{}
+	if o.Legacy {
+		g.legacyFile = t.Pick(len(g.classes))
+	}
 	if o.TwinNames && len(g.classes) >= 1 && t.Bool(2, 3) {
 		c := g.classes[t.Pick(len(g.classes))]
 		// a twin: same simple name in another package
@@ -526,6 +544,9 @@ func (g *gctx) genFile(fi int) *JFile {
 		ifaceMapped = true
 	} else if t.Bool(1, 4) {
 		f.Annotations = append(f.Annotations, g.pick([]string{"@Component", "@Service", "@Deprecated", "@SuppressWarnings(\"unchecked\")"}))
+	}
+	if t.Bool(1, 10) {
+		f.HeaderBytes = []int{600, 4100, 8200, 16400, 33000, 65600}[t.Pick(6)]
 	}
 	// fields
 	fieldTypes := map[string]string{}
@@ -778,6 +799,21 @@ func (g *gctx) genFile(fi int) *JFile {
 			}
 		}
 		_ = mi
+		f.Methods = append(f.Methods, m)
+	}
+	if g.o.Legacy && f.Kind == "class" && fi == g.legacyFile {
+		// a legacy method: locals named like the fields other classes use, then a long run of numbered
+		// ones (symbol tables of 120..300 entries: around the sizes at which tables get reallocated)
+		m := JMethod{Modifiers: "public", Ret: "void", Name: "legacyInit"}
+		for _, n := range fieldNames {
+			typ, imp := g.typeRefClass(fi)
+			need(imp)
+			m.Body = append(m.Body, typ+" "+n+" = null;")
+		}
+		count := []int{120, 130, 200, 300}[t.Pick(4)]
+		for k := 0; k < count; k++ {
+			m.Body = append(m.Body, fmt.Sprintf("int v%d = %d;", k, k))
+		}
 		f.Methods = append(f.Methods, m)
 	}
 	// service-style methods with long parameter lists sharing parameter names (evaluation summary)
